@@ -225,6 +225,31 @@ def gen_graph(rnd, depth):
     return lst
 
 
+class LateReg:
+    """does not opt in; picklable only through a reducer registered with copyreg (it refuses the default protocol)"""
+    def __init__(self, v):
+        self.v = v
+
+    def __reduce_ex__(self, proto):
+        raise TypeError('LateReg is only picklable through copyreg')
+
+
+def _late_make_a(v):
+    return LateReg(v)
+
+
+def _late_make_b(v, tag):
+    return LateReg(v)
+
+
+def _late_reduce_a(o):
+    return _late_make_a, (o.v,)
+
+
+def _late_reduce_b(o):
+    return _late_make_b, (o.v, 'b')
+
+
 MENU = [None, True, 123, 2 ** 100, 1.25, 'text', b'bytes', bytearray(b'ba'), (1, 'a'), [1, [2]], {'a': {'b': 1}}, {1, 2}, frozenset('ab'),
         datetime.datetime(2020, 1, 2, 3, 4, 5), datetime.timedelta(1), datetime.timezone.utc, decimal.Decimal('3.14'),
         fractions.Fraction(2, 7), Color.BLUE, DC(1, [2]), NT(1, 2), ValueError('bad', 3), KeyError('k'), OSError(2, 'x'),
@@ -407,6 +432,28 @@ def main(tier, seed, replay=None):
                     res.violation(dict(cls=C.__name__, how=label), f'__getstate__ called with remote={flags}, expected {want}; restored x={getattr(back, "x", None)}')
             except Exception as e:
                 res.violation(dict(cls=C.__name__, how=label), f'{label} of an opt-in object raises {type(e).__name__}: {e}')
+    # (e) reducers registered with copyreg while the process has long been pickling (picklers exist already, no new opt-in class in between)
+    for step, (name, reducer) in enumerate([('first registration', _late_reduce_a), ('registration replaced', _late_reduce_b),
+                                            ('registration replaced again', _late_reduce_a)]):
+        copyreg.pickle(LateReg, reducer)
+        try:
+            for holder in (lambda o: o, lambda o: [o, {'k': o}], lambda o: Plain(a=o)):
+                g = holder(LateReg(5))
+                for remote in (True, False):
+                    for proto in (2, 4):
+                        ref = pickle.dumps(g, protocol=proto)
+                        try:
+                            got = remote_pickle.dumps(g, protocol=proto, remote=remote)
+                        except Exception as e:       # noqa
+                            got = ('exc', type(e).__name__)
+                        res.count('bytes:late-copyreg'); res.case(('late-copyreg', step, repr(type(g)), remote, proto), nontrivial=True)
+                        if got != ref:
+                            res.violation(dict(value=f'{type(g).__name__} holding an instance of a class whose reducer was registered with copyreg.pickle() after '
+                                                     f'picklers had been used ({name})', protocol=proto, remote=remote),
+                                          'remote_pickle.dumps differs from pickle.dumps for a graph without opt-in classes (late copyreg registration not honoured)',
+                                          observed=dict(remote_pickle=str(got)[:200], pickle=str(ref)[:200]))
+        finally:
+            copyreg.dispatch_table.pop(LateReg, None)
     if gen_ok:
         bad, err = core.coq_eval_cases(PROP, HEADER, terms, per_file=300)
         res.traces_validated = len(terms) - len(bad)
